@@ -234,8 +234,9 @@ end Hfsm.Props.C09
 `m` hands `m'` to `processRequest` (`Api.step m o = m'.processRequest`, `m'.root = m.root`).  For REACHABLE
 instances (`ReachableOf shape cfg m`: `Mach.create shape cfg` followed by any history of API calls) the
 configuration switches are those of the construction, the numbering hypothesis `IdsBelow` of the partial theorem
-follows from C01's invariant, and `NoMarks` holds on the histories `QuietOf` describes (NOT after `load` /
-`replayTransitions` / a `replayEnter` that answered `false`: see GAP 2 of Proofs/Reach.lean). -/
+follows from C01's invariant, and `NoMarks` holds on the histories `QuietOf` describes: every reachable history except one with a
+`replayEnter` of a non-empty history that answered `false` (GAP 2 of Proofs/Reach.lean; `load` and
+`replayTransitions` are covered by Proofs/LoadMarks.lean). -/
 namespace Hfsm.Props.C09
 open Hfsm Hfsm.Mach
 variable {U : Type} [UtilArith U] {shape : Shape} {cfg : Config} {m m' : Mach U} {o : Api.Op}
@@ -449,7 +450,7 @@ open Hfsm Hfsm.Mach
 variable {U : Type} [UtilArith U] {shape : Shape} {o : Api.Op}
 
 /-- **Replay of a multi-round step between two reachable instances of the same machine.**  The authority `a` is
-quiet (`QuietOf`: no `load` / failed replay since the last step washed the marks) and met no contract violation;
+quiet (`QuietOf`: no `replayEnter` of a non-empty history answering `false` since the marks were last washed) and met no contract violation;
 its call `o` hands `a'` to `processRequest`; the replica `r` of the same `shape` holds the same registry.  `IdsBelow`,
 `NoMarks` and the state counts are discharged; what is left is what makes the statement true: plain machine, every
 round `RoundOK`, something approved. -/
